@@ -37,11 +37,25 @@ def cfg_sets(ctx, cfgfile):
 def run(ctx):
     quick = ctx.tier == 'quick'
     tier = ctx.tier
+    if getattr(ctx, 'replay_path', None):
+        saved = json.load(open(ctx.replay_path))
+        if 'trace' not in saved['case']:
+            return _c18.replay_saved(ctx, 'health')
+        # a stored trace: validate it again (it was recorded from the tree of that time; nothing is re-executed)
+        out = ctx.tmp('replay/trace.ndjson')
+        with open(out, 'w') as f:
+            for e in saved['case']['trace']:
+                f.write(json.dumps(e) + '\n')
+        ok, r = ctx.validate_trace('TraceHealth', 'TraceHealth.cfg', out, timeout=1700)
+        ctx.traces_validated += 1
+        if not ok:
+            ctx.divergences.append({'case': saved['case'], 'result': {'msg': 'stored trace is rejected by TraceHealth.tla', 'patterns': []}})
+        return
     binary = ctx.go_build('health')
 
     # 1. the concurrent design: contract invariants over all interleavings of two requests with everything else
     def mc():
-        r = ctx.tlc_must_pass('Health', f'Health.MC_{tier}.cfg', timeout=1700, coverage=True, workers=6, tag='mc', count=False)
+        r = ctx.tlc_must_pass('Health', f'Health.MC_{tier}.cfg', timeout=3000, coverage=True, workers=min(4, vlib.NCPU), tag='mc', count=False)
         acts = ['RegisterReady', 'RegisterHealth', 'Signal', 'Unsignal', 'SetHealth', 'ReqStart', 'ReqEval', 'ReqFinish']
         if not quick:
             acts.append('Progress')
@@ -56,7 +70,7 @@ def run(ctx):
         cfgfile = f'Health.Gen_{tier}.cfg'
         sets = cfg_sets(ctx, cfgfile)
         cfg = _c18.cfg_from_template(ctx, cfgfile, {'PreReg': prereg})
-        g = ctx.tlc_must_pass('Health', cfg, timeout=1700, dump=True, workers=4, tag=f'gen-prereg{int(prereg)}', count=False)
+        g = ctx.tlc_must_pass('Health', cfg, timeout=3000, dump=True, workers=min(4, vlib.NCPU), tag=f'gen-prereg{int(prereg)}', count=False)
         hs = list(_c18.iter_histories(g.dump_path, sets['MaxOps']))
         os.remove(g.dump_path)
         total = len(hs)
@@ -67,15 +81,21 @@ def run(ctx):
         health = sorted(sets['HGen'] + sets['HPulse'] + sets['HShards'], key=RANK.index, reverse=True)
         cases = [{'mode': 'replay', 'gates': sets['Gates'], 'gens': sets['HGen'], 'preR': ready if prereg else [],
                   'preH': health if prereg else [], 'steps': h} for h in hs]
+        save = os.environ.get('VERIF_SAVE_CASES')   # debugging aid
+        if save:
+            os.makedirs(save, exist_ok=True)
+            with open(os.path.join(save, f'C33-prereg{int(prereg)}.ndjson'), 'w') as f:
+                for c in cases:
+                    f.write(json.dumps(c, separators=(',', ':')) + '\n')
         with lock:
             totals[f'sequential/prereg={prereg}'] = {'histories': total, 'replayed': len(cases)}
             if len(cases) < total:
                 sampled.append(prereg)
-            res, lines = ctx.replay(binary, cases, procs=8, timeout=1500)
+            res, lines = ctx.replay(binary, cases, procs=min(8, vlib.NCPU), timeout=3000)
             ctx.absorb(res, lines)
 
     # 3. concurrent traces -> TraceHealth
-    nfiles, ntraces = (1, 24) if quick else (6, 60)
+    nfiles, ntraces = (1, 16) if quick else (6, 60)
     tstats = {'traces': 0, 'lines': 0, 'overlapping_calls': 0, 'accepted': 0}
 
     def traces(k):
@@ -87,7 +107,17 @@ def run(ctx):
         if not res[0].get('ok'):
             raise vlib.Inconclusive('recorder failed: ' + str(res[0].get('msg')))
         ex = res[0].get('extra') or {}
-        ok, r = ctx.validate_trace('TraceHealth', 'TraceHealth.cfg', out, timeout=1700)
+        # same mechanics as ctx.validate_trace (workers 1, StateDeque, POSTCONDITION), with a tag of its own so that
+        # validations running side by side do not share a work directory
+        r = ctx.tlc('TraceHealth', 'TraceHealth.cfg', workers=1, timeout=3000, extra_files={'trace.ndjson': out}, dfs=True,
+                    tag=f'trace{k}', count=False)
+        if r.timed_out:
+            raise vlib.Inconclusive('trace validation timed out')
+        if not r.ok and not r.violated and 'postcondition' not in r.stdout.lower():
+            raise vlib.Inconclusive('trace validation failed to run:\n' + '\n'.join(r.stdout.splitlines()[-30:]))
+        m = re.search(r'@@HW (\d+) of (\d+)', r.stdout)
+        r.hw = (int(m.group(1)), int(m.group(2))) if m else None
+        ok = r.ok
         with lock:
             tstats['traces'] += ntraces
             tstats['lines'] += ex.get('lines', 0)
@@ -118,16 +148,17 @@ def run(ctx):
 
     jobs = [mc, lambda: gen(True), lambda: gen(False)] + [(lambda k=k: traces(k)) for k in range(nfiles)]
     errs = []
-    with ThreadPoolExecutor(max_workers=4) as ex:
+    with ThreadPoolExecutor(max_workers=max(1, vlib.NCPU // 4)) as ex:
         for f in [ex.submit(j) for j in jobs]:
             try:
                 f.result()
             except vlib.Inconclusive as e:
                 errs.append(str(e))
-    if errs:
-        raise vlib.Inconclusive(' | '.join(errs)[:3000])
     ctx.states = sum(r['distinct'] for r in ctx.tlc_runs)
     ctx.transitions = sum(r['generated'] for r in ctx.tlc_runs)
+    if errs and not ctx.divergences:
+        raise vlib.Inconclusive(' | '.join(errs)[:3000])
+    ctx.infra += [e[:500] for e in errs]      # a divergence already found is reported even if another job failed
     ctx.exhaustive = not sampled
     if tstats['overlapping_calls'] == 0:
         raise vlib.Inconclusive('recorded traces contain no overlapping operations: nothing concurrent was observed')
